@@ -28,6 +28,7 @@ def on_alarm(signum, frame):
 
 def main():
     batch, out, mb, secs = sys.argv[1], sys.argv[2], int(sys.argv[3]), int(sys.argv[4])
+    mode = sys.argv[5] if len(sys.argv) > 5 else "open"
     data = open(batch, "rb").read()
     lim = mb * 1024 * 1024
     resource.setrlimit(resource.RLIMIT_AS, (lim, lim))
@@ -44,10 +45,27 @@ def main():
             rss0 = resource.getrusage(resource.RUSAGE_SELF).ru_maxrss
             signal.alarm(secs)
             try:
-                psd = PSDImage.open(io.BytesIO(b))
-                # touching the tree is part of "opening"
-                nlayers = sum(1 for _ in psd.descendants())
-                res = "ok %d" % nlayers
+                if mode == "engine":
+                    # the text-engine-data parser that opening a type layer runs on the embedded blob
+                    from psd_tools.psd.engine_data import EngineData, EngineData2
+
+                    n = 0
+                    for cls in (EngineData, EngineData2):
+                        try:
+                            cls.frombytes(b)
+                            n += 1
+                        except Hang:
+                            raise
+                        except MemoryError:
+                            raise
+                        except Exception:
+                            pass
+                    res = "ok %d" % n
+                else:
+                    psd = PSDImage.open(io.BytesIO(b))
+                    # touching the tree is part of "opening"
+                    nlayers = sum(1 for _ in psd.descendants())
+                    res = "ok %d" % nlayers
             except Hang:
                 res = "HANG"
             except MemoryError:
